@@ -6,11 +6,12 @@
    given by [c_directive].  Floating conversions are not specified here. *)
 From Verif Require Import Lib.Base Lib.Dyadic Lib.Utf8.
 
-Inductive conv : Type := Cd | Ci | Co | Cu | Cx | CX | Cc | Cs.
+Inductive conv : Type := Cd | Ci | Co | Cu | Cx | CX | Cc | Cs | Ce | CE | Cf | Cg | CG.
 
 Definition conv_byte (c : conv) : Z :=
   match c with
   | Cd => 100 | Ci => 105 | Co => 111 | Cu => 117 | Cx => 120 | CX => 88 | Cc => 99 | Cs => 115
+  | Ce => 101 | CE => 69 | Cf => 102 | Cg => 103 | CG => 71
   end.
 
 Inductive wd : Type := WNone | WLit (ds : bytes) | WStar.
@@ -146,7 +147,22 @@ Definition c_char (r : rspec) (ch : bytes) : bytes :=
 Inductive carg : Type :=
 | AInt (v : Z)          (* d i o u x X : the number truncated toward zero *)
 | AChar (ch : bytes)    (* c : the character (one byte, or one UTF-8 sequence) *)
-| AStr (s : bytes).     (* s *)
+| AStr (s : bytes)      (* s *)
+| ANonFin (x : fnum).   (* e E f g G : an infinity or NaN (finite values are not specified here) *)
+
+(* e E f g G of an infinity or NaN: [-]inf or [-]nan (upper case for E G), the
+   sign rules of a signed conversion, padded with spaces; the 0 flag and the
+   precision have no effect *)
+Definition c_nonfinite (r : rspec) (x : fnum) (upper : bool) : bytes :=
+  let word := match x with
+              | FInf _ => if upper then [73; 78; 70] else [105; 110; 102]
+              | _ => if upper then [78; 65; 78] else [110; 97; 110]
+              end in
+  let sign := match x with
+              | FInf true => [45]
+              | _ => if r_plus r then [43] else if r_space r then [32] else []
+              end in
+  c_field r false sign word.
 
 Definition c_directive (chars : bool) (d : dir) (wv pv : Z) (a : carg) : bytes :=
   let r := resolve d wv pv in
@@ -155,6 +171,8 @@ Definition c_directive (chars : bool) (d : dir) (wv pv : Z) (a : carg) : bytes :
   | (Co | Cu | Cx | CX), AInt v => c_unsigned r (d_conv d) v
   | Cc, AChar ch => c_char r ch
   | Cs, AStr s => c_string chars r s
+  | (Ce | Cf | Cg), ANonFin x => c_nonfinite r x false
+  | (CE | CG), ANonFin x => c_nonfinite r x true
   | _, _ => []
   end.
 
@@ -166,4 +184,5 @@ Definition c_defined (d : dir) : bool :=
   | Cc => negb (has 35 (d_flags d)) && negb (has 48 (d_flags d))
           && match d_prec d with PrNone => true | _ => false end
   | Cs => negb (has 35 (d_flags d)) && negb (has 48 (d_flags d))
+  | Ce | CE | Cf | Cg | CG => true
   end.
